@@ -270,8 +270,92 @@ def job_thermal(cfg):
     return res
 
 
+def job_beam(cfg):
+    """constant axial strain + constant curvature on an inclined member: the end nodes carry the exact field (all dofs), every interior node must too"""
+    res = JobResult(cfg)
+    c = new_context()
+    facade.install()
+    dim, et, tim = cfg["dim"], cfg["elem"], cfg["timoshenko"]
+    direction = np.asarray(cfg["direction"], dtype=float)
+    L = float(np.linalg.norm(direction))
+    p1 = np.array([0.5, 0.25, 0.0])
+    simu, beam, _ = simlib.beam_simu(dim, et, tuple(p1), tuple(p1 + direction), cfg.get("ne", 3), tim, E=210.0)
+    mesh = simu.mesh
+    key = f"beam dim={dim} {et} {'Timoshenko' if tim else 'EulerBernoulli'} direction={cfg['direction']}"
+    res.functions |= {"Beam.Construct_local_matrix_system", "Bilinear.BeamStiffness", "_EulerBernoulli.Get_beam_B_e_pg", "_Timoshenko.Get_beam_B_e_pg", "_Beam._Calc_P", "_Simu.add_dirichlet", "Solvers.__Solver_1"}
+    # member frame exactly as the model builds it (yAxis default (0,1,0)): exact rational because the directions are Pythagorean
+    i_ = direction / L
+    yax = np.array([0.0, 1.0, 0.0])
+    k_ = np.cross(i_, yax)
+    k_ = k_ / np.linalg.norm(k_)
+    j_ = np.cross(k_, i_)
+    Pf = np.array([[Fraction(float(v)).limit_denominator(10 ** 6) for v in col] for col in (i_, j_, k_)], dtype=object).T  # columns i, j, k
+    # field in member axes: axial a0 + a1 s ; deflection along j: b0 + b1 s + kz s^2/2 (rotation about k: b1 + kz s);
+    # 3-D: deflection along k: c0 + c1 s + ky s^2/2 (rotation about j: -(c1 + ky s)), twist t0 + t1 s
+    a0, a1, b0, b1, kz = [c.var(n, -1, 1) for n in ("a0", "a1", "b0", "b1", "kz")]
+    if dim == 3:
+        c0, c1, ky, t0, t1 = [c.var(n, -1, 1) for n in ("c0", "c1", "ky", "t0", "t1")]
+    res.symbols = 5 if dim == 2 else 10
+    X = mesh.coord
+    sn = [Fraction(float(v)).limit_denominator(10 ** 9) for v in (X - p1) @ i_]
+
+    def exact(n):
+        s_ = sn[n]
+        ul = [a0 + a1 * s_, b0 + b1 * s_ + kz * s_ * s_ / 2, 0]
+        rl = [0, 0, b1 + kz * s_]
+        if dim == 3:
+            ul[2] = c0 + c1 * s_ + ky * s_ * s_ / 2
+            rl[1] = -(c1 + ky * s_)
+            rl[0] = t0 + t1 * s_
+        ug = [sum(Pf[a, b] * ul[b] for b in range(3)) for a in range(3)]
+        rg = [sum(Pf[a, b] * rl[b] for b in range(3)) for a in range(3)]
+        return (ug[:2] + [rg[2]]) if dim == 2 else (ug + rg)
+
+    un = simu.Get_unknowns()
+    t = (X - p1) @ i_
+    ends = [int(np.argmin(t)), int(np.argmax(t))]
+    mark = c.mark()
+    with facade.symbolic(), stubs.ideal_linear_solver():
+        for n in ends:
+            simu.add_dirichlet(np.array([n]), exact(n), un)
+        u = np.asarray(simu.Solve(), dtype=object).reshape(-1, len(un))
+    pcs = c.pc_since(mark)
+    res.paths, res.path_conditions = 1, len(pcs)
+
+    def replay(env):
+        full = {kk: float(v) for kk, v in {**c.shadow, **(env or {})}.items()}
+        s2, _, _ = simlib.beam_simu(dim, et, tuple(p1), tuple(p1 + direction), cfg.get("ne", 3), tim, E=210.0)
+        for n in ends:
+            s2.add_dirichlet(np.array([n]), [float(as_sym(v).eval(full)) for v in exact(n)], un)
+        uf = np.asarray(s2.Solve()).reshape(-1, len(un))
+        ex = np.array([[float(as_sym(v).eval(full)) for v in exact(n)] for n in range(mesh.Nn)])
+        err = float(np.abs(uf - ex).max())
+        return err > 1e-7, {"field_coefficients": {k_: full[i] for i, k_ in enumerate(c.names[:res.symbols])}, "max_error_all_dofs": err, "direction": cfg["direction"]}
+
+    interior = [n for n in range(mesh.Nn) if n not in ends]
+    tol = TOL_REL * 100
+    first = True
+    for n in interior:
+        ex = exact(n)
+        worst = None
+        for d in range(len(un)):
+            o = prove_abs_le(as_sym(u[n, d]) - as_sym(ex[d]), tol, pcs, f"{key} node {n} dof {un[d]}")
+            if o.status != "held":
+                worst = o
+                break
+        res.record(f"{key}: node {n} carries the exact field (all {len(un)} dofs)", worst or Outcome("held", how="exact"), replay, key=f"{key} interior dofs",
+                   sample=None if not first else {"config": key, "obligation": "for all axial-strain / curvature / offset coefficients in [-1,1]: |u_solved - u_exact| <= 1e-7 at every interior node and dof"})
+        first = False
+    if interior:
+        n = interior[0]
+        o = prove_abs_le(as_sym(u[n, 0]) - as_sym(exact(n)[0]) - a1 - kz, tol, pcs, "twin")
+        res.twin(f"{key} twin", o.status == "cex")
+    res.stubs |= facade.USED_STUBS
+    return res
+
+
 def job(cfg):
-    return {"elastic": job_elastic, "thermal": job_thermal}[cfg["sim"]](cfg)
+    return {"elastic": job_elastic, "thermal": job_thermal, "beam": job_beam}[cfg["sim"]](cfg)
 
 
 def main():
@@ -309,6 +393,16 @@ def main():
         for et in ["TRI3", "TRI6", "TRI10", "TRI15", "QUAD4", "QUAD8", "QUAD9", "MIXED", "TETRA4", "TETRA10", "HEXA8", "HEXA20", "HEXA27", "PRISM6", "PRISM15", "PRISM18"]:
             configs.append({"sim": "thermal", "elem": et, "variant": variants[k % 4]})
             k += 1
+    # beams: constant axial strain and curvature on inclined members (exact Pythagorean directions)
+    if tier == "quick":
+        for et, tim, dim_, dd in (("SEG2", False, 2, (3.0, 4.0, 0.0)), ("SEG3", True, 2, (3.0, 4.0, 0.0)), ("SEG2", False, 3, (2.0, 3.0, 6.0)), ("SEG3", True, 3, (2.0, 3.0, 6.0))):
+            configs.append({"sim": "beam", "dim": dim_, "elem": et, "timoshenko": tim, "direction": dd})
+    else:
+        for et in ["SEG2", "SEG3", "SEG4", "SEG5"]:
+            for tim in (False, True):
+                configs.append({"sim": "beam", "dim": 2, "elem": et, "timoshenko": tim, "direction": (3.0, 4.0, 0.0)})
+                configs.append({"sim": "beam", "dim": 2, "elem": et, "timoshenko": tim, "direction": (-5.0, 12.0, 0.0)})
+                configs.append({"sim": "beam", "dim": 3, "elem": et, "timoshenko": tim, "direction": (2.0, 3.0, 6.0)})
     results = harness.run_jobs(job, configs)
     harness.finish(
         PID, results, t0=t0,
@@ -321,7 +415,7 @@ def main():
                "tolerance": "1e-9 x coordinate scale (displacements), x10 for strains, x stiffness scale for stresses/energy"},
         symbolic=["offset and gradient of the linear field (3-12 reals in [-1,1])", "bounded solver-enclosure error variables"],
         assumptions=["linear solver backends honour A x = b (stub / verified enclosure)", "geometry and moduli concrete (dependence on moduli: C11; affine distortion and renumbering enumerated)",
-                     "beam patch tests are reported by the beam jobs of this check when present", "floating-point assembly of K itself is the real code's; its round-off shows up as ~1e-16 residual coefficients, inside the tolerance"],
+                     "beams: one straight inclined member (exact rational frames), Euler-Bernoulli and Timoshenko, SEG2-SEG5, non-uniform element lengths; field = constant axial strain + constant curvature(s) + twist rate", "floating-point assembly of K itself is the real code's; its round-off shows up as ~1e-16 residual coefficients, inside the tolerance"],
         source_files=["EasyFEA/Simulations/_simu.py", "EasyFEA/Simulations/Solvers.py", "EasyFEA/Simulations/_elastic.py", "EasyFEA/Simulations/_thermal.py",
                       "EasyFEA/FEM/_group_elem.py", "EasyFEA/FEM/Operators/Bilinear.py", "EasyFEA/FEM/_gauss.py", "EasyFEA/Models/Elastic/_laws.py"],
         rule="one job per (simulation, element type, law, mesh variant); non-trivial = symbolic field coefficients and at least one interior-dof obligation",
